@@ -229,9 +229,47 @@ func ruleLocksReleased(c *Ctx, rule string, pkgs []string) {
 		}
 		return false
 	}
+	// wrappers: a function that only locks a mutex (and returns with it held) or only unlocks it acts as that event at its call sites
+	lockWrap, unlockWrap := map[*ssa.Function]string{}, map[*ssa.Function]string{}
+	for _, pk := range pkgs {
+		for _, fn := range c.SrcFuncs(pk) {
+			locks, unlocks := map[string]bool{}, map[string]bool{}
+			instrsOf(fn, func(in ssa.Instruction) {
+				var cc *ssa.CallCommon
+				switch x := in.(type) {
+				case *ssa.Call:
+					cc = &x.Call
+				case *ssa.Defer:
+					cc = &x.Call
+				}
+				if cc == nil || len(cc.Args) == 0 {
+					return
+				}
+				if isMutexMethod(cc.StaticCallee(), "Lock", "RLock") {
+					locks[exprStr(cc.Args[0])] = true
+				}
+				if isMutexMethod(cc.StaticCallee(), "Unlock", "RUnlock") {
+					unlocks[exprStr(cc.Args[0])] = true
+				}
+			})
+			if len(locks) == 1 && len(unlocks) == 0 {
+				for k := range locks {
+					lockWrap[fn] = k
+				}
+			}
+			if len(unlocks) == 1 && len(locks) == 0 {
+				for k := range unlocks {
+					unlockWrap[fn] = k
+				}
+			}
+		}
+	}
 	n := 0
 	for _, pk := range pkgs {
 		for _, fn := range c.SrcFuncs(pk) {
+			if _, isWrap := lockWrap[fn]; isWrap {
+				continue // returns with the mutex held on purpose: its callers carry the obligation
+			}
 			// mutexes locked in fn, by rendered receiver
 			type ev struct {
 				in   ssa.Instruction
@@ -239,6 +277,32 @@ func ruleLocksReleased(c *Ctx, rule string, pkgs []string) {
 			}
 			events := map[string][]ev{}
 			instrsOf(fn, func(in ssa.Instruction) {
+				switch x := in.(type) {
+				case *ssa.Call:
+					if mu, ok := lockWrap[x.Call.StaticCallee()]; ok {
+						events[mu] = append(events[mu], ev{in, "lock"})
+					}
+					if mu, ok := unlockWrap[x.Call.StaticCallee()]; ok {
+						events[mu] = append(events[mu], ev{in, "unlock"})
+					}
+				case *ssa.Defer:
+					if mu, ok := unlockWrap[x.Call.StaticCallee()]; ok {
+						events[mu] = append(events[mu], ev{in, "defer-unlock"})
+					}
+					// defer release() where release is what a lock wrapper handed back
+					if rc, ok := x.Call.Value.(*ssa.Call); ok {
+						if mu, ok := lockWrap[rc.Call.StaticCallee()]; ok {
+							events[mu] = append(events[mu], ev{in, "defer-unlock"})
+						}
+					}
+				}
+				if x, ok := in.(*ssa.Call); ok {
+					if rc, ok := x.Call.Value.(*ssa.Call); ok {
+						if mu, ok := lockWrap[rc.Call.StaticCallee()]; ok {
+							events[mu] = append(events[mu], ev{in, "unlock"})
+						}
+					}
+				}
 				switch x := in.(type) {
 				case *ssa.Call:
 					sc := x.Call.StaticCallee()
@@ -252,6 +316,27 @@ func ruleLocksReleased(c *Ctx, rule string, pkgs []string) {
 					sc := x.Call.StaticCallee()
 					if isMutexMethod(sc, "Unlock", "RUnlock") && len(x.Call.Args) > 0 {
 						events[exprStr(x.Call.Args[0])] = append(events[exprStr(x.Call.Args[0])], ev{in, "defer-unlock"})
+					}
+					// defer func() { ...; mu.Unlock() }()
+					var closure *ssa.Function
+					if mc, ok := x.Call.Value.(*ssa.MakeClosure); ok {
+						closure, _ = mc.Fn.(*ssa.Function)
+					} else if f, ok := x.Call.Value.(*ssa.Function); ok && f.Parent() != nil {
+						closure = f
+					}
+					if closure != nil {
+						instrsOf(closure, func(in2 ssa.Instruction) {
+							if c2, ok := in2.(*ssa.Call); ok && isMutexMethod(c2.Call.StaticCallee(), "Unlock", "RUnlock") && len(c2.Call.Args) > 0 {
+								key := exprStr(c2.Call.Args[0])
+								if _, known := events[key]; !known {
+									// a captured mutex renders differently inside the closure: attribute it to the only mutex locked here
+									for k := range events {
+										key = k
+									}
+								}
+								events[key] = append(events[key], ev{in, "defer-unlock"})
+							}
+						})
 					}
 				}
 			})
@@ -1062,6 +1147,16 @@ func ruleListedClassesHaveSize(c *Ctx, rule string) {
 	}
 	// with the current token's kind fixed to K, the classes that a reachable store puts into the node (further tests look at the
 	// next token and stay open)
+	sawKind := false
+	instrsOf(pcc, func(in ssa.Instruction) {
+		if v, ok := in.(ssa.Value); ok && isCurrentKind(v) {
+			sawKind = true
+		}
+	})
+	if !sawKind {
+		ob.Und("parse_character_class does not read the kind of tokens[token_index] directly (a cursor object?): the kind cannot be fixed")
+		return
+	}
 	t2c := map[string]map[string]bool{}
 	unknownClass := map[string]bool{}
 	for _, k := range ttVals {
@@ -1171,4 +1266,213 @@ func ruleListedClassesHaveSize(c *Ctx, rule string) {
 	default:
 		ob.OKnt(fmt.Sprintf("%s admits %d token kinds that parse_character_class turns into a class; GetMaxSize is >= 0 for each", fnName(pred), n))
 	}
+}
+
+// ---------------------------------------------------------------------------------------------
+// C07.R9 / C06.R7: the readers behind files.Reader deliver full reads.
+//
+// files.Reader.Read/ReadAt answer "" (end of input) when the contents' Read delivers fewer bytes than asked for, after having checked
+// that enough bytes exist. A short count - legal for an io.Reader - therefore silently drops text. Every implementation of
+// Read([]byte) (int, error) in package files must, on each return with a nil error, return len(p): literally, under a dominating
+// comparison that says so, as the result of a copy whose source is sliced to len(p) bytes, or by forwarding a library reader.
+func ruleFullReads(c *Ctx, rule string) {
+	r := c.R
+	n := 0
+	for _, fn := range c.SrcFuncs("files") {
+		sig := fn.Signature
+		if fn.Name() != "Read" || sig.Recv() == nil || sig.Params().Len() != 1 || sig.Results().Len() != 2 {
+			continue
+		}
+		if sl, ok := sig.Params().At(0).Type().Underlying().(*types.Slice); !ok || !types.Identical(sl.Elem(), types.Typ[types.Byte]) {
+			continue
+		}
+		p := fn.Params[1]
+		isLenP := func(v ssa.Value) bool {
+			call, ok := v.(*ssa.Call)
+			if !ok {
+				return false
+			}
+			b, ok := call.Call.Value.(*ssa.Builtin)
+			return ok && b.Name() == "len" && len(call.Call.Args) == 1 && call.Call.Args[0] == ssa.Value(p)
+		}
+		n++
+		ob := r.Ob(rule, fnName(fn)+": a read without error delivers len(p) bytes", c.pos(fn.Pos()))
+		var und []string
+		nret := 0
+		instrsOf(fn, func(in ssa.Instruction) {
+			ret, ok := in.(*ssa.Return)
+			if !ok || len(ret.Results) != 2 {
+				return
+			}
+			if k, ok := ret.Results[1].(*ssa.Const); !ok || !k.IsNil() {
+				// an error value: either a failure return, or both results of a forwarded call
+				if ex, ok := ret.Results[1].(*ssa.Extract); ok {
+					if ex0, ok := ret.Results[0].(*ssa.Extract); ok && ex0.Tuple == ex.Tuple {
+						if call, ok := ex.Tuple.(*ssa.Call); ok {
+							if sc := call.Call.StaticCallee(); sc != nil && !c.isRepoFn(sc) {
+								nret++
+								return // forwards a library reader (strings.Reader, os.File): trusted together with the size check of files.Reader
+							}
+						}
+					}
+				}
+				return
+			}
+			nret++
+			cnt := ret.Results[0]
+			if isLenP(cnt) {
+				return
+			}
+			for _, l := range domConds(fn, ret.Block()) {
+				b, ok := l.Cond.(*ssa.BinOp)
+				if !ok {
+					continue
+				}
+				isCnt := func(v ssa.Value) bool { return v == cnt || exprStr(v) == exprStr(cnt) }
+				isLen := func(v ssa.Value) bool { return isLenP(v) || exprStr(v) == "len("+p.Name()+")" }
+				if b.Op == token.EQL && l.Pol || b.Op == token.NEQ && !l.Pol {
+					if isCnt(b.X) && isLen(b.Y) || isCnt(b.Y) && isLen(b.X) {
+						return
+					}
+				}
+				// count >= len(p) (the exit of `for count < len(p)`): the count cannot exceed what p holds
+				if isCnt(b.X) && isLen(b.Y) && (b.Op == token.GEQ && l.Pol || b.Op == token.LSS && !l.Pol) {
+					return
+				}
+				if isCnt(b.Y) && isLen(b.X) && (b.Op == token.LEQ && l.Pol || b.Op == token.GTR && !l.Pol) {
+					return
+				}
+			}
+			if call, ok := cnt.(*ssa.Call); ok {
+				if b, ok := call.Call.Value.(*ssa.Builtin); ok && b.Name() == "copy" && len(call.Call.Args) == 2 && call.Call.Args[0] == ssa.Value(p) {
+					if sl, ok := call.Call.Args[1].(*ssa.Slice); ok && sl.High != nil {
+						hi, hk := linearOver(sl.High)
+						lo, lk := map[ssa.Value]int64{}, int64(0)
+						if sl.Low != nil {
+							lo, lk = linearOver(sl.Low)
+						}
+						for v, cf := range lo {
+							hi[v] -= cf
+						}
+						rest := 0
+						lenTerm := int64(0)
+						for v, cf := range hi {
+							if cf == 0 {
+								continue
+							}
+							if isLenP(v) {
+								lenTerm += cf
+							} else {
+								rest++
+							}
+						}
+						if rest == 0 && lenTerm == 1 && hk-lk == 0 {
+							return // copy(p, src[a : a+len(p)])
+						}
+					}
+				}
+			}
+			pos := c.pos(ret.Pos())
+			if pos == "" {
+				pos = "end of " + fn.Name()
+			}
+			und = append(und, fmt.Sprintf("%s returns %s", pos, exprStr(cnt)))
+		})
+		switch {
+		case nret == 0:
+			ob.Und("no return without error found")
+		case len(und) == 0:
+			ob.OKnt(fmt.Sprintf("%d return(s) without error, each delivering len(p) bytes (or forwarding a library reader)", nret))
+		default:
+			ob.Und("cannot show that the count equals len(p): " + strings.Join(und, "; ") + " — files.Reader takes a short count for the end of the input and drops the text")
+		}
+	}
+	r.Floor(rule, "Read implementations in package files", n, 2)
+}
+
+// ---------------------------------------------------------------------------------------------
+// C01.R10 / C13.R11: a subroutine activation is identified by a program position.
+//
+// The VM decides "was I called, or did control fall into this subroutine" by comparing a field of the top call record with a value
+// the StartSubroutine handler passes. Two subroutines can carry the same name (a stored pattern that is inlined brings its own), but
+// not the same position: the value compared must come from an instruction field that the generator fills from its offset (the set P
+// of C01.R2).
+func ruleActivationIdentity(c *Ctx, rule string) {
+	r := c.R
+	csT := c.NamedType("engine", "CallState")
+	if csT == nil {
+		r.Ob(rule, "anchor engine.CallState", "").Und("not found")
+		return
+	}
+	P, _ := c.pcFields()
+	isCallField := func(v ssa.Value) bool {
+		switch x := v.(type) {
+		case *ssa.Field:
+			return types.Identical(x.X.Type(), csT)
+		case *ssa.UnOp:
+			if fa, ok := x.X.(*ssa.FieldAddr); ok && x.Op == token.MUL {
+				return types.Identical(deref(fa.X.Type()), csT)
+			}
+		}
+		return false
+	}
+	n := 0
+	for _, fn := range c.SrcFuncs("engine") {
+		instrsOf(fn, func(in ssa.Instruction) {
+			b, ok := in.(*ssa.BinOp)
+			if !ok || (b.Op != token.EQL && b.Op != token.NEQ) {
+				return
+			}
+			var param *ssa.Parameter
+			for _, pair := range [][2]ssa.Value{{b.X, b.Y}, {b.Y, b.X}} {
+				if p, ok := pair[1].(*ssa.Parameter); ok && isCallField(pair[0]) {
+					param = p
+				}
+			}
+			if param == nil {
+				return
+			}
+			pi := -1
+			for i, p := range fn.Params {
+				if p == param {
+					pi = i
+				}
+			}
+			for _, g := range c.SrcFuncs("engine") {
+				for _, cs := range callsTo(g, fn) {
+					if pi < 0 || pi >= len(cs.Call.Args) {
+						continue
+					}
+					n++
+					arg := cs.Call.Args[pi]
+					ob := r.Ob(rule, fmt.Sprintf("%s: the activation handed to %s is identified by a program position", fnName(g), fn.Name()), c.pos(cs.Pos()))
+					var owner types.Type
+					fname := ""
+					switch x := arg.(type) {
+					case *ssa.Field:
+						owner, fname = x.X.Type(), fieldName(x.X.Type(), x.Field)
+					case *ssa.UnOp:
+						if fa, ok := x.X.(*ssa.FieldAddr); ok {
+							owner, fname = deref(fa.X.Type()), fieldName(deref(fa.X.Type()), fa.Field)
+						}
+					case *ssa.Parameter:
+						ob.Und("the identity is a parameter of " + fnName(g) + "; its call sites are not followed")
+						continue
+					}
+					nt, _ := owner.(*types.Named)
+					if nt == nil {
+						ob.Und("the identity is not a field of an instruction: " + exprStr(arg))
+						continue
+					}
+					key := nt.Obj().Name() + "." + fname
+					if _, ok := P[key]; ok {
+						ob.OKnt(key + " is filled from the generator's offset (and relocated with the instruction)")
+					} else {
+						ob.Bad(key + " is not derived from the generator's offset: two subroutines can carry the same value (a stored pattern that is inlined brings its own names), so falling into one of them while the other is active is taken for a call that already happened and its end returns to the wrong place")
+					}
+				}
+			}
+		})
+	}
+	r.Floor(rule, "call sites that identify an activation", n, 1)
 }
